@@ -5,6 +5,8 @@ use coset::*;
 
 #[path = "history.rs"]
 pub mod history;
+#[path = "builder.rs"]
+pub mod builder;
 
 fn unhex(s: &str) -> Vec<u8> {
     if s == "-" || s.is_empty() {
@@ -149,6 +151,7 @@ pub fn run(p: &[&str]) -> String {
         "canonical_check" => canonical_check(&p[1..]),
         "free_structures" => free_structures(&p[1..]),
         "history" => history::run(&p[1..]),
+        "builder" => builder::run(&p[1..]),
         other => format!("BADOP {}", other),
     }
 }
